@@ -310,12 +310,17 @@ func VH_C17_pending_action_after_transfer_timeout() {
 }
 
 //verif:check C15,C16,C08 stubs=env,valuefile,abslog reach=stepped-down,still-leader,end desc="a match-index report that commits a pending configuration while a leadership transfer is waiting for a ready target: whatever that commit does (including the leader stepping down because the committed configuration no longer has it as voter), the rest of the step - quorum check, transfer target selection - runs without a self-inflicted failure, and a transfer still pending has its task unanswered exactly while its timer runs" bounds="n=3 nodes, followers plain voters, the leader's own voter flag/action symbolic, log of 2 entries, pending or committed latest configuration, transfer to a named voter or to any"
-func VH_C15_commit_stepdown_with_transfer() {
+func VH_C15_commit_stepdown_with_transfer() { vCommitStepdownWithTransfer(false) }
+
+//verif:check C15,C16,C08 tier=thorough stubs=env,valuefile,abslog reach=stepped-down,still-leader,end desc="as VH_C15_commit_stepdown_with_transfer with the followers' voter flags and pending actions symbolic too" bounds="n=3 nodes, all voter flags/actions symbolic, log of 2 entries"
+func VH_C15_commit_stepdown_with_transfer_full() { vCommitStepdownWithTransfer(true) }
+
+func vCommitStepdownWithTransfer(full bool) {
 	r, l, _ := vMkLeader(3, 2, false)
 	cfg := r.configs.Latest
 	vAssume(cfg.numVoters() >= 1)
 	for id, nd := range cfg.Nodes {
-		if id != r.nid {
+		if id != r.nid && !full {
 			vAssume(nd.Voter && nd.Action == None) // the followers are plain voters; the leader's own flags are free
 		}
 	}
